@@ -409,6 +409,24 @@ func (c *Completions) merge(other Completions) {
 	c.noSpace.Merge(other.noSpace)
 	c.messages.Merge(other.messages)
 
+	// The receiver has those maps only if it was given such
+	// options itself: like them, make the maps on first use.
+	if c.listLong == nil {
+		c.listLong = make(map[string]bool)
+	}
+
+	if c.noSort == nil {
+		c.noSort = make(map[string]bool)
+	}
+
+	if c.listSep == nil {
+		c.listSep = make(map[string]string)
+	}
+
+	if c.pad == nil {
+		c.pad = make(map[string]bool)
+	}
+
 	for tag := range other.listLong {
 		if _, found := c.listLong[tag]; !found {
 			c.listLong[tag] = true
